@@ -113,6 +113,7 @@ struct Fiber {
     long timed_failures = 0;           // timed lock attempts that gave up
     long long waited_ns = 0;
     long last_timeout_step = -1;
+    long delayed_until = -1;           // targeted delay: not runnable before this global step while other fibers can run (cv-entry window attack)
     bool fault_window = false;         // this fiber is inside a region where windowed faults may fire       // global step at which this fiber's latest timed wait was declared timed out           // virtual time spent in timed waits that gave up (each consumes its full duration)
     char eh[32];
     void* asan_fake = nullptr;
@@ -267,15 +268,20 @@ inline Fiber* pick() {
     Runtime& R = rt();
     Fiber* en[MAXF]; int n = 0;
     Fiber* eny[MAXF]; int ny = 0;
+    bool any_delayed = false;
     for (int pass = 0; pass < 3; ++pass) {
         n = ny = 0;
         bool all_done = true;
         for (Fiber* f : R.fibers) {
             if (!f->done) all_done = false;
-            if (fiber_enabled(f)) { if (f->yielded) eny[ny++] = f; else en[n++] = f; }
+            if (fiber_enabled(f)) {
+                if (f->delayed_until > R.res.steps) { any_delayed = true; continue; }
+                if (f->yielded) eny[ny++] = f; else en[n++] = f;
+            }
         }
         if (all_done) return nullptr;
         if (n + ny > 0) break;
+        if (any_delayed) { for (Fiber* f : R.fibers) f->delayed_until = -1; any_delayed = false; pass = -1; continue; }
         if (pass == 0) {
             // nothing can run: fire the time-out of the lowest-id timed waiter (the rest follow in later rounds)
             bool fired = false;
@@ -433,7 +439,7 @@ inline Fiber* alloc_fiber() {
     f->id = (int)idx; f->started = false; f->done = false; f->pend = P_NONE; f->pm = nullptr; f->pcv = nullptr;
     f->join_target = -1; f->join_status = 0; f->clock.clear(); f->yielded = false; f->frozen = false; f->freeze_at = -1;
     f->own_steps = 0; f->last_run = 0; f->patience = -1; f->timed = false; f->timeout_fired = false; f->notified = false; f->spurious_in = -1;
-    f->held = 0; f->mutex_ops = 0; f->blocking_ops = 0; f->timed_failures = 0; f->waited_ns = 0; f->last_timeout_step = -1; f->fault_window = false; f->asan_fake = nullptr; f->prio = 0;
+    f->held = 0; f->mutex_ops = 0; f->blocking_ops = 0; f->timed_failures = 0; f->waited_ns = 0; f->last_timeout_step = -1; f->fault_window = false; f->delayed_until = -1; f->asan_fake = nullptr; f->prio = 0;
     std::memset(f->eh, 0, sizeof f->eh);
 #ifdef VRT_ASAN
     __asan_unpoison_memory_region(f->stack, f->stack_size);
